@@ -31,12 +31,12 @@ CHECKS = {
          "DESIGN.md §3 C06"),
  "C02": ("model_checking",
          "enumeration of multi-host attack worlds (slot x presentation x attacker) x warming histories x cache sizes through the real FetchUnknown / pub.New; provenance judged from text every served object carries",
-         "2 attackers x 12 reference slots (incl. references wrapped in an inline Create) x 20 presentations (incl. redirects and stubs whose landing document is honest about itself) of a forged copy of h1's note or actor x 4 warming histories (thorough: every ordered pair of warming steps) x cache sizes {128,1} (quick) / {128,1,2} (thorough); per case pub.New by URL (twice), as an embedded value with and without source, and client.FetchUnknown three times, with every reachable creator, recipient, parent, child, actor and target inspected: an item shown with an id on host H only ever shows text served by H, and FetchUnknown never returns an (object, id) pair whose stamp differs from the id's host.",
+         "2 attackers x 17 reference slots (incl. references wrapped in an inline Create, and five whose carrier is a genuine document of the victim host pointing at a collection served by the attacker) x 20 presentations (incl. redirects and stubs whose landing document is honest about itself) of a forged copy of h1's note or actor x 4 warming histories (thorough: every ordered pair of warming steps) x cache sizes {128,1} (quick) / {128,1,2} (thorough); per case pub.New by URL (twice), as an embedded value with and without source, and client.FetchUnknown three times, with every reachable creator, recipient, parent, child, actor and target inspected: an item shown with an id on host H only ever shows text served by H, and FetchUnknown never returns an (object, id) pair whose stamp differs from the id's host.",
          "Env-B (hosts = dial addresses of the verifrt.Dial seam). Embedded values are passed with the source of their enclosing document, as servitor's own callers do. Completeness (no false 'forged') is not judged.",
          "DESIGN.md §3 C02"),
  "C09": ("exploration",
          "enumeration of listing worlds (entry kinds x representations x orders x paging) compared position by position with generator ground truth",
-         "Outbox of an actor with 13 activity kinds x 4 representations (+404, junk), reply collection of a post with 14 reply kinds x 2 representations, actors and parents whose ids differ from the genuine one only in the query, all singles, all ordered pairs (inline and split over a remote page) and, in thorough, all ordered triples over the URL-form kinds; 12 author cases directly and as an announced object: entries behind a redirect from the owner's host to a forged or foreign document; every position shows the genuine item or an error item as ground truth says, nothing is dropped or reordered, at the first look and at a second look with everything cached.",
+         "Outbox of an actor with 15 activity kinds x 4 representations (+404, junk, two redirecting entries), reply collection of a post with 16 reply kinds x 2 representations (+ a redirecting entry), incl. actors and parents whose ids differ from the genuine one only in letter case, actors and parents whose ids differ from the genuine one only in the query, all singles, all ordered pairs (inline and split over a remote page) and, in thorough, all ordered triples over the URL-form kinds; 12 author cases directly and as an announced object: entries behind a redirect from the owner's host to a forged or foreign document; every position shows the genuine item or an error item as ground truth says, nothing is dropped or reordered, at the first look and at a second look with everything cached.",
          "Env-B world; ground truth is written from the statement in checks/c09 (genuine = activity whose actor is the owner by id / reply whose parent resolves to the post's id / authors on the post's host, two missing ids counting as the same place).",
          "DESIGN.md §3 C09"),
  "C04": ("exploration",
@@ -46,7 +46,7 @@ CHECKS = {
          "DESIGN.md §3 C04"),
  "C05": ("fault_enumeration",
          "exhaustive fault-point enumeration (every cut byte x FIN/RST/stall x every hop, trickle, connection-stage faults) over a response corpus on the real fetch path with virtual-time connections",
-         "9 exchanges (single responses, a 3-hop redirect chain, webfinger, pub.New on an actor with outbox); every byte offset of every response as a cut with FIN, with RST and as a stall, trickle from 3 offsets, refused and stalled connections, at every hop (5 739 fault runs quick; thorough cuts the 4 kB response at every byte too): the call returns, no panic, no hang (a stalled read must meet an armed deadline), virtual time <= 5 x timeout per connection, and no document unless the whole JSON object was delivered.",
+         "10 exchanges (single responses, a 3-hop and a 7-hop redirect chain, webfinger, pub.New on an actor with outbox); every byte offset of every response as a cut with FIN, with RST and as a stall, trickle from 3 offsets, refused and stalled connections, at every hop (5 739 fault runs quick; thorough cuts the 4 kB response at every byte too): the call returns, no panic, no hang (a stalled read must meet an armed deadline), virtual time <= 5 x timeout per redirect hop of the scenario (retries do not raise the allowance), and no document unless the whole JSON object was delivered.",
          "Env-B: in-memory connections with a virtual clock (rt/verifrt/net.go) model net.Conn deadlines. Env-A part (run first): one real-time case per stall stage (before/in status line, headers, after headers, body, trickle, truncated body, silent peer that never completes the TLS handshake) over real TLS with a 1 s timeout; each must end in an error within 5 x timeout + 3 s (deliberately loose).",
          "DESIGN.md §3 C05"),
  "C03": ("model_checking",
@@ -61,12 +61,12 @@ CHECKS = {
          "DESIGN.md §3 C20"),
  "C11": ("model_checking",
          "enumeration of source tuples x explicit-state search over request sequences on the real Splicer against a reference merge",
-         "All tuples of up to 2 sources with up to 3 items and 3 sources with up to 2 items (quick, 16 572 tuples) / all tuples of up to 3 sources with up to 3 items (thorough, 621 436), timestamps from {missing,t1,t2,t3} in every order; per tuple a breadth-first search over reference states (items delivered) with request sizes {0,1,2,3,5}, every transition replayed on a fresh Splicer, every continuation asked twice, start offsets 1..3 on the initial feed, unmerged request sequences (the caller keeps the first answer and asks the continuation again without merging), and the continuation returned at exhaustion harvested once.",
+         "All tuples of up to 2 sources with up to 3 items and 3 sources with up to 2 items (quick, 16 572 tuples) / all tuples of up to 3 sources with up to 3 items (thorough, 621 436), timestamps from {missing,t1,t2,t3} in every order; per tuple a breadth-first search over reference states (items delivered) with request sizes {0,1,2,3,5}, every transition replayed on a fresh Splicer, every continuation asked twice, start offsets 1..3 on the initial feed, unmerged request sequences (the caller keeps the first answer and asks the continuation again without merging), the continuation returned at exhaustion harvested once, and long sources (up to 100 items, sizes around 20, 40, 64) under requests of 19..128 items, so that thresholds inside the implementation are crossed.",
          "Trusted: the reference merge and the synthetic Container sources in checks/c11; splicer.VerifNewSplicer (accessor) builds the state NewSplicer leaves behind. NewSplicer's own fetch fan-out is covered by C08's scenarios, not here.",
          "DESIGN.md §3 C11"),
  "C10": ("model_checking",
          "enumeration of page-chain layouts x explicit-state search over request sequences on the real Collection, against the lazily generated true sequence",
-         "7 636 chains (quick; 2 kinds x 4 root-item variants x page vectors up to 3 pages of size 0..2 x 3 placements x 6+ tails incl. cycles and failing pages; pages that carry first/last/prev links; first requests at start offsets 0,1,2,3,5) / about 180 000 (thorough, 4 pages of size 0..3); per chain a breadth-first search over reference states (items delivered) with request sizes {0,1,2,3,4,7}, every transition replayed through the continuation protocol on a fresh Collection over the in-memory peer, plus unmerged request pairs. Delivered items are a prefix of the truth, at most one justified error item, no short or over-long answers, nothing lost at the end; non-terminating cases are caught by a worker watchdog.",
+         "7 636 chains (quick; 2 kinds x 4 root-item variants x page vectors up to 3 pages of size 0..2 x 5 placements (embedded, URL, alternating, reference stubs {id,type} and {id}) x 6+ tails incl. cycles and failing pages; pages that carry first/last/prev links; first requests at start offsets 0,1,2,3,5) / about 180 000 (thorough, 4 pages of size 0..3); per chain a breadth-first search over reference states (items delivered) with request sizes {0,1,2,3,4,7}, every transition replayed through the continuation protocol on a fresh Collection over the in-memory peer, plus unmerged request pairs. Delivered items are a prefix of the truth, at most one justified error item, no short or over-long answers, nothing lost at the end; non-terminating cases are caught by a worker watchdog.",
          "Trusted: the truth walker in checks/c10; Env-B peer (lib/world, verifrt.Dial seam); the watchdog thresholds (50 000 goroutines or 60 s for one chain) only decide non-termination. Eagerness of look-ahead is deliberately not judged.",
          "DESIGN.md §3 C10"),
  "C12": ("exploration",
@@ -86,7 +86,7 @@ CHECKS = {
          "DESIGN.md §3 C15"),
  "C13": ("exploration",
          "bounded-exhaustive enumeration of cell strings against layout predicates (small-scope input model checking)",
-         "Every string over a 6-cell alphabet up to length 6 (quick) / 8 (thorough) and over a 9-cell alphabet with wide, NBSP, combining and tab cells up to length 4 / 6, through Wrap, DumbWrap, Pad, Indent, Snip and SetLength at every width 1..5 / 1..7, each output judged by predicates transcribed from the statement on an independently tokenized cell list. Complete within the bound; the interactions of long words, blank runs, explicit newlines and style prefixes that break wrapping code all occur at these sizes.",
+         "Every string over a 6-cell alphabet up to length 6 (quick) / 8 (thorough) and over a 9-cell alphabet with wide, NBSP, combining and tab cells up to length 4 / 6, through Wrap, DumbWrap, Pad, Indent, Snip and SetLength at every width 1..5 / 1..7 (and at 13 widths around 80, 160, 256, 1000 and 4096 on the strings of length <=2 and 8 long strings, so that thresholds inside the implementation are crossed), each output judged by predicates transcribed from the statement on an independently tokenized cell list. Complete within the bound; the interactions of long words, blank runs, explicit newlines and style prefixes that break wrapping code all occur at these sizes.",
          "Trusted: lib/oracle tokenizer and the predicates in checks/c13; length is counted in runes as servitor does; strings longer than the bound and alphabets beyond the nine cells are not covered.",
          "DESIGN.md §3 C13"),
  "C16": ("exploration",
@@ -96,13 +96,13 @@ CHECKS = {
          "DESIGN.md §3 C16"),
  "C17": ("exploration",
          "complete product of a JSON value grammar and all typed accessors against a reference classifier",
-         "About 2 100 JSON values (numerals around every power of two to 2^70 in three notations, all 65 control code points in strings, timestamps, URLs, media types, arrays, objects) x 4 key states x 8 accessors plus all GetMarkup pairs, decoded by encoding/json as jtp does, compared with a reference classifier written from the statement (absent / wrong type / unparseable / value, exact integer value via math/big).",
+         "About 2 100 JSON values (numerals around every power of two to 2^70 in three notations, all 65 control code points in strings, timestamps, URLs, media types, arrays, objects) x 4 key states x 9 key names (incl. keys with % verbs) x 8 accessors plus all GetMarkup pairs, decoded by encoding/json as jtp does, compared with a reference classifier written from the statement (absent / wrong type / unparseable / value, exact integer value via math/big).",
          "Trusted: the reference classifier in checks/c17; encoding/json, time.Parse, url.Parse are explored through, not modelled.",
          "DESIGN.md §3 C17"),
  # id: (category, technique, level text, level note, design ref)
  "C18": ("model_checking",
          "explicit-state search over operation sequences on the real History/Feed against list-based reference models",
-         "Every add/back/forward sequence up to depth 11 (quick) / 14 (thorough) on a fresh history.History, and a breadth-first search over feed reference-model states to depth 10 / 14 plus every unmerged feed operation sequence to depth 4 / 6; each transition is replayed on a fresh real object and all observers are compared with the model. Exhaustive within the depth bound, which is the right level for two tiny state machines whose bugs are aliasing and off-by-one errors at small sizes.",
+         "Every add/back/forward sequence up to depth 11 (quick) / 14 (thorough) on a fresh history.History, and a breadth-first search over feed reference-model states to depth 10 / 14 plus every unmerged feed operation sequence to depth 4 / 6, and every interleaving of short operation sequences on two feeds (depth 3 / 4) and two histories (5 / 7) alive at once; each transition is replayed on a fresh real object and all observers are compared with the model. Exhaustive within the depth bound, which is the right level for two tiny state machines whose bugs are aliasing and off-by-one errors at small sizes.",
          "Trusted: the list-based reference models in checks/c18; the depth bounds; CreateEmpty (unused, not in the property's alphabet) is excluded.",
          "DESIGN.md §3 C18"),
 }
